@@ -83,6 +83,34 @@ def run(tier):
                  "prints as %s; parsing that yields %s, expected exactly Ok(original value)" % (show_value(text), sorted(show_value(o) for o in outs)),
                  F.fns[mod.fromstr_impls[t]]["sp"])
             C.sample({"type": t, "value": show_value(v), "text": symstr.show(text), "parsed": sorted(show_value(o) for o in outs)})
+        if adt["kind"] == "Struct":
+            # a record holding an enumeration field must reject a text whose keyword position holds something else
+            kw_of = {}
+            for fld in adt["variants"][0]["fields"]:
+                t2 = fld["ty"]
+                a2 = F.adts.get(t2)
+                if a2 and a2["kind"] == "Enum" and all(not x["fields"] for x in a2["variants"]) and t2 in mod.fromstr_impls:
+                    for v2 in roundtrip.gen_values(F, t2, overrides=OVERRIDES):
+                        rs, _ = roundtrip.render_value(F, mod, v2)
+                        for ctl, r in rs:
+                            if ctl == OK and normalize(r)[0] == "sstr" and symstr.is_concrete(normalize(r)[1]):
+                                kw_of[symstr.concrete(normalize(r)[1])] = fld["name"]
+            if kw_of and vals:
+                renders, _ = roundtrip.render_value(F, mod, vals[0])
+                okr = [normalize(r) for ctl, r in renders if ctl == OK]
+                toks = symstr.tokens_ws(okr[0][1]) if len(okr) == 1 and okr[0][0] == "sstr" else None
+                for i, tk in enumerate(toks or []):
+                    if symstr.is_concrete(tk) and symstr.concrete(tk) in kw_of:
+                        for repl in (symstr.lit("-"), symstr.atom("unknown-keyword")):
+                            ps = []
+                            for j, x in enumerate(toks):
+                                if j:
+                                    ps.append(("lit", " "))
+                                ps.extend(symstr.pieces_of(repl) if j == i else x)
+                            parses, _ = roundtrip.parse_value(F, mod, t, symstr.mk(ps))
+                            bad = [r for ctl, r in parses if not (ctl == OK and r[0] == "enum" and r[1] == ERRV)]
+                            C.ob("C18/record-rejects-unknown-keyword", "%s.%s <- %s" % (t, kw_of[symstr.concrete(tk)], symstr.show(repl)), not bad and parses,
+                                 "%r, whose %s is not a keyword of its type, parses to %s" % (symstr.show(symstr.mk(ps)), kw_of[symstr.concrete(tk)], [show_value(b)[:120] for b in bad]), F.fns[mod.fromstr_impls[t]]["sp"])
         if pure_enum:
             parses, _ = roundtrip.parse_value(F, mod, t, symstr.atom("unknown-keyword"))
             bad = [r for ctl, r in parses if not (ctl == OK and r[0] == "enum" and r[1] == ERRV)]
